@@ -199,7 +199,7 @@ Proof.
     inversion H; subst; clear H. eapply alloc_inv; eauto.
     destruct I as (_ & IV). destruct (IV _ _ K) as (_ & (_ & R)). exact R.
   - destruct (nth_error (objs w) k) as [ob|] eqn:K; try discriminate.
-    inversion H; subst; clear H. eapply alloc_inv; eauto. unfold RecOK; simpl; auto.
+    inversion H; subst; clear H. eapply alloc_inv; eauto; unfold RecOK; simpl; auto.
   - destruct (nth_error (objs w) k); try discriminate. inversion H; subst; auto.
 Qed.
 
@@ -238,7 +238,7 @@ Proof.
   - intros i j oi oj Hi Hj _. destruct i; destruct j; simpl in *; auto;
       try (destruct i; discriminate); try (destruct j; discriminate).
   - intros k ob K. destruct k; simpl in K; [|destruct k; discriminate]. inversion K; subst; simpl.
-    split; auto. unfold view, cell; simpl. rewrite mps_eta. exact I.
+    split; auto; unfold view, cell; simpl; try rewrite mps_eta; exact I.
 Qed.
 
 (* ------------------------------------------------------------------ deciders *)
